@@ -129,7 +129,7 @@ func sameValueOrLoad(a, b ssa.Value) bool {
 	la, ok1 := a.(*ssa.UnOp)
 	lb, ok2 := b.(*ssa.UnOp)
 	if ok1 && ok2 && la.Op == token.MUL && lb.Op == token.MUL {
-		return la.X == lb.X
+		return la.X == lb.X || sameAddr(la.X, lb.X)
 	}
 	return false
 }
